@@ -8,6 +8,8 @@ package main
 //
 // Ops:  geom / typed / feat / fc   a value through both codecs and every decoder (documents, decode
 //                                   outcomes incl. the decoded Type fields, re-marshal; fc: ExtraMembers untouched)
+//       hand / seq                  hand-built *geojson.Geometry values; sequences of documents decoded into
+//                                   one receiver ("receiver history must not matter") — c02_seq.go
 //       bbox                        geojson/bbox.go: NewBBox, Valid, Bound
 //       hostile                     arbitrary bytes through every decoder incl. the six typed helper types
 //
@@ -1034,6 +1036,10 @@ func runC02(op string, in []string) string {
 		return c02BBoxOp(r)
 	case "hostile":
 		return runGeoJSONHostile(in)
+	case "hand":
+		return c02Hand(r.hand())
+	case "seq":
+		return runC02Seq(in)
 	}
 	return "badop"
 }
@@ -1453,6 +1459,8 @@ func genC02(c *Ctx) {
 			}
 			c.Case("bbox", bb+" "+fb(-1)+" "+fb(-2.5)+" "+fb(3)+" "+fb(4))
 		}
+		// round 2: hand-built geometries, decode sequences into one receiver (c02_seq.go)
+		genC02Round2Fixed(c)
 	}
 	hostile := func(input string) { c.Case("hostile", input) }
 	genGeoJSONHostileCorpus(c, hostile)
@@ -1474,7 +1482,9 @@ func genC02(c *Ctx) {
 		}
 		if k%2 == 1 {
 			genGeoJSONHostileN(c, 2, hostile)
+			c.Case("hand", c02GenHand(c, 0))
 		}
+		c.Case("seq", c02GenSeq(c))
 		if k%16 == 0 {
 			b := orb.Bound{Min: orb.Point{coord(r, CoordFloat), coord(r, CoordFloat)}, Max: orb.Point{coord(r, CoordFloat), coord(r, CoordFloat)}}
 			c.Case("bbox", c02BBox(c)+" "+fb(b.Min[0])+" "+fb(b.Min[1])+" "+fb(b.Max[0])+" "+fb(b.Max[1]))
